@@ -35,7 +35,7 @@ enum Fam : uint32_t {
 };
 
 struct Action {
-    enum K { RUN, PUB, SUB, UNSUB, RECV, DISC, CANCEL, DESTROY, MOVE_ASSIGN, SIGNAL, BARRIER, WAIT_HS, BPUB, REAUTH, MARK_STOP, RERUN_CHECK, KILLCONN, BRAW, NOP } k = NOP;
+    enum K { RUN, PUB, SUB, UNSUB, RECV, DISC, CANCEL, DESTROY, MOVE_ASSIGN, SIGNAL, BARRIER, WAIT_HS, BPUB, REAUTH, MARK_STOP, RERUN_CHECK, KILLCONN, BRAW, PUBMANY, NOP } k = NOP;
     int qos = 0, tag = 0; bool retain = false; std::string topic, payload; ref::Props props;
     std::vector<std::pair<std::string, uint8_t>> filters;
     int target_op = -1; int sig_type = 1;      // SIGNAL: op index in App::ops; 1 total, 2 partial, 4 terminal
@@ -70,7 +70,7 @@ struct Scenario;   // scenarios.hpp
 struct Event {
     enum K { NONE, CONNECT_OK, WRITE_OK, WRITE_DEAD, WRITE_COMPLETE_LATE, READ_ALL, READ_ERR, READ_EOF, SHUTDOWN_OK, RELEASE, APP, TIME,
              CONNECT_REFUSED, CONNECT_HANG, HS_RC, HS_MALFORMED, HS_SILENT, HS_CLOSE, WR_FAIL, WR_SHORT, TAIL_LOSS, WR_DELIVER_ONLY, WR_FAIL_LATE,
-             WR_NOREPLY, WR_DELAY, WR_BCLOSE_BEFORE, WR_BCLOSE_AFTER, RD_CHUNK, RD_CUT, RD_LOSS, SHUTDOWN_HANG, INJECT, CONTINUE } k = NONE;
+             WR_NOREPLY, WR_DELAY, WR_BCLOSE_BEFORE, WR_BCLOSE_AFTER, RD_CHUNK, RD_CUT, RD_LOSS, SHUTDOWN_HANG, INJECT, CONTINUE, RESOLVE_DONE, RESOLVE_FAIL } k = NONE;
     int stream = -1; int a = 0; int e = 0; bool deviation = false;
     std::string str() const;
 };
@@ -89,6 +89,7 @@ public:
     // results of the C05 drain check
     struct DrainResult { bool done = false; bool ioc_stopped = false; int parked = 0; int timers = 0; int incomplete = 0; int64_t t = 0; std::string what; } drain_result, stop_snap;
     std::string reaction_signature() const;      // client->broker packets + op results (C19 chunking independence)
+    bool releasing_dns = false;
     bool running = false; std::vector<int64_t> stop_times; std::vector<size_t> stop_seqs; int newer_pending_at_snap = 0;
     const std::vector<int>* cur_prefix = nullptr; int step_no = 0; int epoch_at_quiet = 0;
     uint64_t out_volume() const;
